@@ -191,3 +191,95 @@ func HarnessC05Reuse() {
 	vQuiesce()
 	vAssert(third.done && third.err == nil && third.resp == resp2, "c05:id-reusable-after-completion")
 }
+
+// HarnessC05SendFail: a request whose send fails (the session stays established) leaves no pending
+// entry behind: the identifier can be used again at once.
+func HarnessC05SendFail() {
+	t := &vhRespTransport{}
+	t.enc, t.comp = SessionEncryptionNone, SessionCompressionNone
+	t.failSends = 1
+	id := nondetString("id", 2)
+	vAssume(id != "")
+	resp := &ResponseCommand{Command: Command{Envelope: Envelope{ID: id}, Method: CommandMethodGet}, Status: CommandStatusSuccess}
+	t.script = []*ResponseCommand{resp}
+	t.gateAt = 0
+	t.gate = make(chan struct{})
+	c := newChannel(t, 2)
+	c.state = SessionStateEstablished
+	c.startRcv.Do(c.startReceiver)
+	ctx, cancel := context.WithTimeout(context.Background(), 5*time.Second)
+	defer cancel()
+	_, err1 := c.ProcessCommand(ctx, &RequestCommand{Command: Command{Envelope: Envelope{ID: id}, Method: CommandMethodGet}})
+	vReach("c05:first-attempt-returned")
+	if err1 == nil {
+		return
+	}
+	vAssert(len(t.sent) == 0, "c05:failed-send-wrote-nothing")
+	vAssert(len(c.processingCmds) == 0, "c05:failed-send-releases-the-identifier")
+	// the retry goes through
+	second := &vhCmdResult{}
+	go func() {
+		second.resp, second.err = c.ProcessCommand(ctx, &RequestCommand{Command: Command{Envelope: Envelope{ID: id}, Method: CommandMethodGet}})
+		second.done = true
+	}()
+	vQuiesce()
+	close(t.gate)
+	vQuiesce()
+	vAssert(second.done && second.err == nil && second.resp == resp, "c05:retry-with-the-same-id-succeeds")
+}
+
+// vhLateTransport: the first send reaches the peer, which answers at once, but the local write still
+// reports an error (a write timeout after the bytes left, a connection reset right after); afterwards
+// the peer goes on with one more envelope.
+type vhLateTransport struct {
+	vhRespTransport
+	tail     envelope
+	tailSent bool
+}
+
+func (t *vhLateTransport) Send(ctx context.Context, e envelope) error {
+	if t.failSends > 0 {
+		t.failSends--
+		close(t.gate)
+		vQuiesce() // the answer arrives while the sender is still inside its write
+		return errVhStub
+	}
+	return t.vhRespTransport.Send(ctx, e)
+}
+
+func (t *vhLateTransport) Receive(ctx context.Context) (envelope, error) {
+	if t.pos < len(t.script) {
+		return t.vhRespTransport.Receive(ctx)
+	}
+	if t.tail != nil && !t.tailSent {
+		t.tailSent = true
+		return t.tail, nil
+	}
+	<-ctx.Done()
+	return nil, ctx.Err()
+}
+
+// HarnessC05LateResponse: a response that arrives for a request whose caller has already given up
+// (its send reported an error) neither blocks the receiver nor stays registered: what the peer sends
+// next is still delivered.
+func HarnessC05LateResponse() {
+	t := &vhLateTransport{}
+	t.enc, t.comp = SessionEncryptionNone, SessionCompressionNone
+	t.failSends = 1
+	resp := &ResponseCommand{Command: Command{Envelope: Envelope{ID: "q"}, Method: CommandMethodGet}, Status: CommandStatusSuccess}
+	t.script = []*ResponseCommand{resp}
+	t.gateAt = 0
+	t.gate = make(chan struct{})
+	t.tail = vhEnvelopeOfKind(0, "after")
+	c := newChannel(t, 1)
+	c.state = SessionStateEstablished
+	c.startRcv.Do(c.startReceiver)
+	ctx, cancel := context.WithTimeout(context.Background(), 5*time.Second)
+	defer cancel()
+	_, err1 := c.ProcessCommand(ctx, &RequestCommand{Command: Command{Envelope: Envelope{ID: "q"}, Method: CommandMethodGet}})
+	vReach("c05:late-response-attempt-returned")
+	vAssert(err1 != nil, "c05:failed-send-is-reported")
+	vQuiesce()
+	vAssert(len(c.processingCmds) == 0, "c05:failed-send-releases-the-identifier")
+	vAssert(t.tailSent && len(c.inMsgChan) == 1, "c05:receiver-survives-a-response-nobody-waits-for")
+}
